@@ -21,6 +21,7 @@ class Unsupported(Exception):
 class Str:
     def __init__(self, n, a, facts=()):
         self.n, self.a, self.facts = n, a, list(facts)
+        self.base = None       # (string, offset) for a slice: self[k] == string[offset + k] for 0 <= k < len(self)
 
 
 def fresh_str(name):
@@ -70,6 +71,8 @@ def slice_(x, lo, hi):
     L = Int('lo%d' % next(_n)); H = Int('hi%d' % next(_n))
     r.facts = [L == lo_, H == hi_, r.n == If(H - L > 0, H - L, 0),
                ForAll([k], Implies(And(0 <= k, k < r.n), r.a[k] == x.a[L + k]), patterns=[r.a[k]])]
+    bx, boff = x.base if x.base is not None else (x, IntVal(0))
+    r.base = (bx, boff + L)
     return r
 
 
@@ -77,6 +80,43 @@ def lower(x):
     r = fresh_str('low'); k = Int('k_low%d' % next(_n))
     r.facts = [r.n == x.n, ForAll([k], Implies(And(0 <= k, k < x.n), r.a[k] == c_lower(x.a[k])), patterns=[r.a[k]])]
     return r
+
+
+def _first_in(x, ch, lo, hi, tag):
+    """first position of character ch in x[lo:hi] (lo <= hi assumed by the caller's guard), or -1"""
+    r = Int('%s%d' % (tag, next(_n))); j = Int('k_%s%d' % (tag, next(_n)))
+    return r, Or(And(lo <= r, r < hi, x.a[r] == ch, ForAll([j], Implies(And(lo <= j, j < r), x.a[j] != ch), patterns=[x.a[j]])),
+                 And(r == -1, ForAll([j], Implies(And(lo <= j, j < hi), x.a[j] != ch), patterns=[x.a[j]])))
+
+
+def _last_in(x, ch, lo, hi, tag):
+    r = Int('%s%d' % (tag, next(_n))); j = Int('k_%s%d' % (tag, next(_n)))
+    return r, Or(And(lo <= r, r < hi, x.a[r] == ch, ForAll([j], Implies(And(r < j, j < hi), x.a[j] != ch), patterns=[x.a[j]])),
+                 And(r == -1, ForAll([j], Implies(And(lo <= j, j < hi), x.a[j] != ch), patterns=[x.a[j]])))
+
+
+class Split:
+    """s.split(<one character>): the list of pieces is not built; it is described by the positions of the first two and the last two
+    occurrences of the separator (p1 < p2, q2 < q1; -1 = no such occurrence) and by its length L = occurrences + 1, of which only
+    L == 1 / L == 2 / L >= 3 is characterised -- enough for len() comparisons against 1 and 2 and for the pieces [0], [1], [-2], [-1]"""
+    def __init__(self, x, ch):
+        self.x, self.ch = x, ch
+        self.p1, f1 = _first_in(x, ch, IntVal(0), x.n, 'sp_p1')
+        self.q1, f2 = _last_in(x, ch, IntVal(0), x.n, 'sp_q1')
+        self.p2, f3 = _first_in(x, ch, self.p1 + 1, x.n, 'sp_p2')
+        self.q2, f4 = _last_in(x, ch, IntVal(0), self.q1, 'sp_q2')
+        self.L = Int('sp_len%d' % next(_n))
+        self.facts = [x.n >= 0, f1, f2, Implies(self.p1 >= 0, f3), Implies(self.p1 < 0, self.p2 == -1), Implies(self.q1 >= 0, f4), Implies(self.q1 < 0, self.q2 == -1),
+                      self.L >= 1, (self.L == 1) == (self.p1 == -1), (self.L == 2) == And(self.p1 >= 0, self.p1 == self.q1)]
+
+    def piece(self, idx):
+        """(in-range condition, lo, hi) of piece idx in (0, 1, -1, -2)"""
+        x = self.x
+        if idx == 0: return BoolVal(True), IntVal(0), If(self.p1 >= 0, self.p1, x.n)
+        if idx == 1: return self.L >= 2, self.p1 + 1, If(self.p2 >= 0, self.p2, x.n)
+        if idx == -1: return BoolVal(True), self.q1 + 1, x.n
+        if idx == -2: return self.L >= 2, self.q2 + 1, self.q1
+        raise Unsupported('piece %d of a split' % idx)
 
 
 class St:
@@ -93,6 +133,7 @@ class StrSE:
         self.methods = {f.name: f for f in cls_node.body if isinstance(f, ast.FunctionDef)}
         self.outcomes = []; self.obligations = []; self.timeout = timeout
         self.stack = []
+        self.brk = []          # continuations of `break`, innermost loop last
 
     def sat(self, st):
         s = SimpleSolver(); s.set('timeout', self.timeout); s.set('mbqi', False); s.add(st.pc)
@@ -183,6 +224,11 @@ class StrSE:
                 return self.ev(st, e.value, kk)
             def kk(s, v):
                 def k2(s2, i):
+                    if v[0] == 'split' and i[0] == 'int':
+                        from z3 import is_int_value
+                        if not is_int_value(i[1]): raise Unsupported('piece of a split at a position that is not a literal')
+                        inr, lo, hi = v[1].piece(i[1].as_long())
+                        return self.branch(s2, inr, lambda a: k(a, self.add_str(a, slice_(v[1].x, lo, hi))), lambda b: self.exit(b, 'IndexError'))
                     if v[0] != 'str' or i[0] != 'int': raise Unsupported('subscript %s[%s]' % (v[0], i[0]))
                     x = v[1]
                     inb = And(i[1] < x.n, i[1] >= -x.n)
@@ -239,11 +285,16 @@ class StrSE:
         f = e.func
         name = ast.unparse(f)
         if name == 'len':
-            return self.ev(st, e.args[0], lambda s, v: k(s, ('int', v[1].n)) if v[0] == 'str' else self._u('len of ' + v[0]))
+            return self.ev(st, e.args[0], lambda s, v: k(s, ('int', v[1].n)) if v[0] == 'str' else (k(s, ('int', v[1].L)) if v[0] == 'split' else self._u('len of ' + v[0])))
         if name == 're.compile':
             return k(st, ('pattern', e.args[0].value))
         if name == 'range':
             return self.evs(st, e.args, lambda s, vs: k(s, ('range', vs[0][1] if len(vs) == 2 else IntVal(0), vs[-1][1])))
+        if name == 'reversed' and len(e.args) == 1:
+            def kr(s, v):
+                if v[0] != 'range': raise Unsupported('reversed of ' + v[0])
+                k(s, ('rrange', v[1], v[2]))
+            return self.ev(st, e.args[0], kr)
         if name == 'str':
             def kk(s, v):
                 if v[0] != 'int': raise Unsupported('str of ' + v[0])
@@ -289,6 +340,21 @@ class StrSE:
                         s2.pc.append(Or(found, none))
                         return k(s2, ('int', r_))
                     return self.evs(s, e.args, with_args)
+                if recv[0] == 'str' and m == 'split' and len(e.args) == 1:
+                    def with_sep(s2, vs):
+                        sep = vs[0]
+                        if sep[0] != 'str' or not self._is_single_char(s2, sep[1]): raise Unsupported('split by something that is not one character')
+                        sp = Split(recv[1], sep[1].a[0]); s2.pc += sp.facts
+                        return k(s2, ('split', sp))
+                    return self.evs(s, e.args, with_sep)
+                if recv[0] == 'str' and m == 'isdigit' and not e.args:
+                    x = recv[1]; j = Int('k_isd%d' % next(_n))
+                    if x.base is not None:
+                        # a slice: the same statement over the characters of the string it was cut from (equal under the slice's defining
+                        # facts; stated there so that a position named in the caller's terms instantiates it)
+                        bx, off = x.base
+                        return k(s, ('bool', And(x.n >= 1, ForAll([j], Implies(And(off <= j, j < off + x.n), c_digit(bx.a[j])), patterns=[bx.a[j]]))))
+                    return k(s, ('bool', And(x.n >= 1, ForAll([j], Implies(And(0 <= j, j < x.n), c_digit(x.a[j])), patterns=[x.a[j]]))))
                 if recv[0] == 'str' and m == 'lower':
                     return k(s, self.add_str(s, lower(recv[1])))
                 if recv[0] == 'chr' and m == 'lower':
@@ -362,6 +428,16 @@ class StrSE:
         if isinstance(s0, ast.For):
             return self.loop(st, s0, nxt, kret, fn)
         if isinstance(s0, ast.Pass): return nxt(st)
+        if isinstance(s0, ast.AugAssign) and isinstance(s0.target, ast.Name) and isinstance(s0.op, (ast.Add, ast.Sub)):
+            def ka(s, v):
+                cur = s.env.get(s0.target.id)
+                if cur is None: raise Unsupported('name ' + s0.target.id)
+                if cur[0] != 'int' or v[0] != 'int': raise Unsupported('augmented assignment %s %s' % (cur[0], v[0]))
+                s.env = dict(s.env); s.env[s0.target.id] = ('int', cur[1] + v[1] if isinstance(s0.op, ast.Add) else cur[1] - v[1]); nxt(s)
+            return self.ev(st, s0.value, ka)
+        if isinstance(s0, ast.Break):
+            if not self.brk: raise Unsupported('break outside a modelled loop')
+            return self.brk[-1](st)
         raise Unsupported('statement ' + type(s0).__name__)
 
     def loop(self, st, node, nxt, kret, fn):
@@ -373,7 +449,9 @@ class StrSE:
             over_str = None
             if r[0] == 'str':                      # for ch in <string>: positions 0..len-1, the target is the character
                 over_str = r[1]; r = ('range', IntVal(0), over_str.n)
+            if r[0] == 'rrange': return self.loop_reversed(s, node, r, spec, nxt, kret, fn, loops.index(node))
             if r[0] != 'range': raise Unsupported('loop over ' + r[0])
+            if any(isinstance(n, ast.Break) for n in ast.walk(node)): raise Unsupported('break in a forward loop')
             lo, hi = r[1], r[2]
             entry = dict(s.env)
             # init
@@ -398,6 +476,43 @@ class StrSE:
             sa.pc += [g for _, g in spec['inv'](entry, sa.env, lo, end, hi)]
             if self.sat(sa): nxt(sa)
         self.ev(st, node.iter, with_range)
+
+
+    def loop_reversed(self, s, node, r, spec, nxt, kret, fn, ordinal):
+        """for i in reversed(range(lo, hi)): visits hi-1, hi-2, ..., lo; the invariant spec['inv'](entry, env, lo, i, hi) speaks about the
+        moment BEFORE position i is visited (positions i+1 .. hi-1 done); `break` leaves with the environment as it is (target bound to
+        the position being visited); exhaustion leaves with the invariant at lo-1 and the target bound to lo (unbound for an empty range)"""
+        if node.orelse: raise Unsupported('for/else')
+        lo, hi = r[1], r[2]
+        entry = dict(s.env)
+        def havoc(env):
+            for v in spec['modifies']:
+                if entry[v][0] == 'str': env[v] = ('str', fresh_str(v))
+                elif entry[v][0] == 'int': env[v] = ('int', Int('%s_h%d' % (v, next(_n))))
+                else: raise Unsupported('loop modifies %s of kind %s' % (v, entry[v][0]))
+        for name, g in spec['inv'](entry, s.env, lo, hi - 1, hi):
+            self.obligations.append(('%s.loop%d/init/%s' % (fn.name, ordinal, name), list(s.pc), g))
+        sb = s.fork(); sb.env = dict(s.env)
+        i = Int('i%d' % next(_n))
+        havoc(sb.env)
+        sb.pc += [lo <= i, i < hi] + [g for _, g in spec['inv'](entry, sb.env, lo, i, hi)]
+        sb.env[node.target.id] = ('int', i)
+        def body_end(s2):
+            for name, g in spec['inv'](entry, s2.env, lo, i - 1, hi):
+                self.obligations.append(('%s.loop%d/preserve/%s' % (fn.name, ordinal, name), list(s2.pc), g))
+        self.brk.append(nxt)
+        try:
+            if self.sat(sb): self.block(sb, node.body, body_end, kret, fn)
+        finally:
+            self.brk.pop()
+        # exhausted, non-empty range
+        sa = s.fork(); sa.env = dict(s.env); havoc(sa.env)
+        sa.pc += [hi > lo] + [g for _, g in spec['inv'](entry, sa.env, lo, lo - 1, hi)]
+        sa.env[node.target.id] = ('int', lo)
+        if self.sat(sa): nxt(sa)
+        # empty range: nothing runs, the target stays as it was (unbound unless assigned before)
+        se_ = s.fork(); se_.env = dict(s.env); se_.pc.append(hi <= lo)
+        if self.sat(se_): nxt(se_)
 
 
 def discharge(hyps, goal, timeout_ms=20000, cheap=False, inputs=None):
